@@ -1156,6 +1156,12 @@ func (c *Ctx) checkOwnOptionsLast() {
 			case *ssa.Slice:
 				v = x.X
 				continue
+			case *ssa.UnOp:
+				// a parameter captured by a closure (the default child generator) is read through its cell
+				if rv := resolveLocal(x); rv != ssa.Value(x) {
+					v = rv
+					continue
+				}
 			case *ssa.Parameter:
 				sl, ok := x.Type().Underlying().(*types.Slice)
 				if !ok {
